@@ -172,11 +172,10 @@ def coerceInput : Nat → Schema → Oracle → TypeRef → PyVal → CoRes
       match v with
       | .none => .ok .none
       | .list xs =>
+        -- values are only kept while no error has been seen; since the value is zeroed as soon as
+        -- there is an error, that bookkeeping is unobservable: value = all item values
         let rs := xs.map (coerceInput n S o t)
-        let acc := rs.foldl (fun (acc : List PyVal × List String) r =>
-            if !r.errors.isEmpty then (acc.1, acc.2 ++ r.errors)
-            else if acc.2.isEmpty then (acc.1 ++ [r.value], acc.2) else acc) ([], [])
-        CoRes.mk' (.list acc.1) acc.2
+        CoRes.mk' (.list (rs.map (·.value))) (rs.flatMap (·.errors))
       | _ =>
         let r := coerceInput n S o t v
         CoRes.mk' (.list [r.value]) r.errors
@@ -197,23 +196,18 @@ def coerceInput : Nat → Schema → Oracle → TypeRef → PyVal → CoRes
       | some (.input _ fields) =>
         match v with
         | .dict kvs =>
-          let acc := fields.foldl (fun (acc : List (String × PyVal) × List String) fd =>
-            let r : Option CoRes :=
-              match lookupKV fd.name kvs with
-              | none =>
-                match fd.default with
-                | some d => some (match coerceLiteral n S o none false fd.type d with
-                                  | some dv => CoRes.ok dv | none => CoRes.ok .undef)
-                | none => if fd.type.isNonNull then some (.err "missing-required-field") else none
-              | some fv => some (coerceInput n S o fd.type fv)
-            match r with
-            | none => acc
-            | some r =>
-              if !r.errors.isEmpty then (acc.1, acc.2 ++ r.errors)
-              else if acc.2.isEmpty then (acc.1 ++ [(fd.name, r.value)], acc.2) else acc) ([], [])
+          let rs : List (Option (String × CoRes)) := fields.map fun fd =>
+            match lookupKV fd.name kvs with
+            | none =>
+              match fd.default with
+              | some d => some (fd.name, match coerceLiteral n S o none false fd.type d with
+                                | some dv => CoRes.ok dv | none => CoRes.ok .undef)
+              | none => if fd.type.isNonNull then some (fd.name, .err "missing-required-field") else none
+            | some fv => some (fd.name, coerceInput n S o fd.type fv)
+          let present := rs.filterMap id
           let unknown := kvs.filterMap fun kv =>
             if fields.any (fun fd => fd.name == kv.1) then none else some "unknown-field"
-          CoRes.mk' (.dict acc.1) (acc.2 ++ unknown)
+          CoRes.mk' (.dict (present.map fun p => (p.1, p.2.value))) (present.flatMap (·.2.errors) ++ unknown)
         | _ => .err "not-an-object"
       | _ => .err "not-an-input-type"
 
